@@ -466,6 +466,12 @@ class Gen:
                 # wildcard table last (the documented idiom)
                 vt = self.type(d - 1)
                 es.append(ent(vt, 0, -1, ktype(ref("tstr"), cut=False)))
+            if r.random() < 0.12 and self.can_ref():
+                # a group rule with one keyed member, referenced by name with or without '?', at any position among the members
+                self.counter += 1
+                gname = "mg%d" % self.counter
+                self.generic_defs.append(grule(gname, sub([[ent(self.type(0), key=kbare(r.choice(["e", "f"])))]])))
+                es.insert(r.randrange(len(es) + 1), name_ent(gname, r.choice([0, 1]), 1))
             elif r.random() < 0.12:
                 # a single type-keyed member, required or optional ('tstr => T', '? tstr => T')
                 es.append(ent(self.type(d - 1), r.choice([0, 1]), 1, ktype(ref("tstr"), cut=False)))
